@@ -107,6 +107,16 @@ func runReaderCase(c *rdCase, file []byte, src string, dir string) (string, stri
 	case "io.Reader/1", "io.Reader/7": // short reads
 		cnt = &countingReader{r: bytes.NewReader(file)}
 		r = &chunkReader{cnt, int(src[len(src)-1] - '0')}
+	case "Reader.DataReader": // the payload reader of a v2.Reader over a CARv1 is the whole file
+		rd, err := carv2.NewReader(bytes.NewReader(file))
+		if err != nil {
+			return "open", "NewReader failed on a valid archive: " + err.Error()
+		}
+		dr, err := rd.DataReader()
+		if err != nil {
+			return "open", "DataReader failed on a valid archive: " + err.Error()
+		}
+		r = dr
 	case "os.File":
 		p := filepath.Join(dir, "r.car")
 		if err := os.WriteFile(p, file, 0o644); err != nil {
@@ -224,7 +234,10 @@ func runReaderReplay(args []string) int {
 				}
 				file := c.A.build()
 				cs := choiceString(c.Hist)
-				for _, src := range []string{"bytes.Reader", "io.Reader", "os.File", "io.Reader/1", "bytes.Reader+trusted", "io.Reader/7+trusted", "io.ByteReader"} {
+				for _, src := range []string{"bytes.Reader", "io.Reader", "os.File", "io.Reader/1", "bytes.Reader+trusted", "io.Reader/7+trusted", "io.ByteReader", "Reader.DataReader"} {
+					if src == "Reader.DataReader" && c.A.Ver != 1 {
+						continue
+					}
 					var cls, msg string
 					func() {
 						defer func() {
